@@ -6,6 +6,8 @@
 (*   {"ev":"lookup","txn":x,"ver":r,"label":..,"df":..}                  GetTxnPoliciesData    *)
 (*   {"ev":"update","op":..,"label":L,"ok":..,"clabel":..,"cdf":..}      apply / reload / revert *)
 (*   {"ev":"adv","d":..}                                                 time passed           *)
+(* a lookup that was held at a yield point while updates ran carries "cs" = the versions that  *)
+(* were current at some instant of it; an update with "ok": false failed (admin call refused). *)
 (* every event carries the observed state: cur, vers (retained versions), pins, t.             *)
 EXTENDS TraceLib, PinP
 
@@ -18,18 +20,18 @@ SetOf(s) == {s[i] : i \in 1..Len(s)}
 
 TInit ==
     /\ l = 1
-    /\ now = 0 /\ cur = 1 /\ content = (1 :> <<"", FALSE>>) /\ loaded = ""
+    /\ now = 0 /\ cur = 1 /\ content = (1 :> <<"", FALSE>>) /\ loaded = {""}
     /\ retained = {1} /\ hyp = <<>> /\ last = [ev |-> "init", ok |-> TRUE]
 
 TReset ==
     /\ Consume("reset")
-    /\ now' = 0 /\ cur' = Ev.cur /\ content' = (Ev.cur :> <<Ev.clabel, Ev.cdf>>) /\ loaded' = Ev.label
+    /\ now' = 0 /\ cur' = Ev.cur /\ content' = (Ev.cur :> <<Ev.clabel, Ev.cdf>>) /\ loaded' = {Ev.label}
     /\ Ev.clabel = Ev.label /\ Ev.cdf = FALSE
     /\ retained' = SetOf(Ev.vers) /\ hyp' = <<>> /\ last' = [ev |-> "reset", ok |-> TRUE]
 
 TLookup ==
     /\ Consume("lookup")
-    /\ Lookup(Ev.txn, Ev.ver, <<Ev.label, Ev.df>>)
+    /\ LookupCS(Ev.txn, Ev.ver, <<Ev.label, Ev.df>>, IF "cs" \in DOMAIN Ev THEN SetOf(Ev.cs) ELSE {cur})
     /\ retained' = SetOf(Ev.vers)
 
 TUpdate ==
